@@ -1765,9 +1765,14 @@ func findRequiredLandmarkChainLeftToRight(r *Runner, chain *syntax.RequiredLandm
 			nextStart = landmark.CoreStart + requiredLandmarkMinWidth(chain.Landmarks[i])
 		}
 
-		candidate := first.Start
+		// The match may reach the first landmark through another alternative than the one found,
+		// so step back over the leading whitespace any of them allows, then over the leading loop.
+		candidate := first.CoreStart
 		if candidate < r.Runtextpos {
 			candidate = r.Runtextpos
+		}
+		for candidate > r.Runtextpos && requiredLandmarkLeadingWhitespace(chain.Landmarks[0], r.Runtext[candidate-1]) {
+			candidate--
 		}
 		for candidate > r.Runtextpos && chain.LeadingLoopSet.CharIn(r.Runtext[candidate-1]) {
 			candidate--
@@ -1800,6 +1805,16 @@ func requiredLandmarkMinWidth(landmark syntax.RequiredLandmark) int {
 		return 0
 	}
 	return width
+}
+
+// requiredLandmarkLeadingWhitespace reports whether ch may be leading whitespace of some alternative.
+func requiredLandmarkLeadingWhitespace(landmark syntax.RequiredLandmark, ch rune) bool {
+	for _, alt := range landmark.Alternatives {
+		if alt.LeadingWhitespaceSet != nil && alt.LeadingWhitespaceSet.CharIn(ch) {
+			return true
+		}
+	}
+	return false
 }
 
 type requiredLandmarkMatch struct {
